@@ -12,6 +12,22 @@ from ..mir import call_matches, callee_name, op_local, op_const_int
 from ..flow import arg_place, ok_return_blocks
 from ..src import walk
 
+CLAIM = {
+    "text": "Structural clauses of the kitty graphics output of KittyImageHandler::{draw,erase,handle}: every written byte lies in a complete APC "
+            "graphics command on every path; each of the five command shapes has exactly the reference keys, literal values (a=t f=32, a=p C=1, "
+            "a=d d=i) and argument sources (v<-height, s<-width, i<-image id fn of the image, p<-placement id fn of the position, m<-index+1<count, "
+            "payload<-chunk); chunk constant is a multiple of 4 and <= 4096; draw, erase and the cache key use the same id functions on the same "
+            "arguments, the placement id is mixed radix with radix = low modulus, its inverse uses the same constants/offset, the largest id "
+            "fits 2^32-1, ids are visibly non-zero; transmit commands only on the Entry::Vacant branch which must pass VacantEntry::insert on "
+            "every Ok path (MIR), put ends every non-silent Ok path, no put without a transmit for empty images, handle removes the id before "
+            "re-drawing (MIR dominance); the pixel loop is the image's row-major iterator writing to_rgba() ([u8;4]) into the base64 encoder "
+            "whose finish() is what is chunked, f=32. Not decided: base64 correctness (C14), numeric id ranges/injectivity for all inputs "
+            "(hook `obligations`), hash collisions, terminal behaviour.",
+    "technique": "output-template extraction and APC command parsing on templates, reference key table, MIR expression trees of the id "
+                 "functions, MIR must-pass/dominance rules, call graph who-calls",
+    "design_ref": "DESIGN.md §5 C11; §4 output templates, reference tables",
+}
+
 REFS = os.path.join(os.path.dirname(os.path.dirname(os.path.abspath(__file__))), "refs", "kitty_graphics.json")
 HANDLER = "KittyImageHandler"
 DRAW = "<image::KittyImageHandler as image::ImageHandler>::draw"
